@@ -75,7 +75,7 @@ inductive Card
   | transform (num : Nat)
   | thermal (num : Nat)                 -- MTn
   | mode
-  | cellMod (kind : Nat) (cantRepeat : Bool)   -- data-block IMP / VOL / U / LAT / FILL (Cell._INPUTS_TO_PROPERTY)
+  | cellMod (kind : Nat) (cantRepeat : Bool) (entries : Nat)   -- data-block IMP / VOL / U / LAT / FILL (Cell._INPUTS_TO_PROPERTY) with its number of entries
   | other
   deriving DecidableEq, Repr
 
@@ -214,7 +214,7 @@ def dataLinkError (s : St) : Card → Option Cls
     data-block input of a class whose `merge` always raises (VOL, U, LAT, FILL; `cantRepeat`). -/
 def modifierEvents : List Nat → List Card → List (Region × Cls)
   | _, [] => []
-  | seen, .cellMod k cant :: rest =>
+  | seen, .cellMod k cant _ :: rest =>
       (if cant && seen.contains k then [(Region.cellsModifierOnce, Cls.MalformedInputError), (Region.cellsModifierMerge, Cls.MalformedInputError)] else [])
         ++ modifierEvents (if seen.contains k then seen else seen ++ [k]) rest
   | seen, _ :: rest => modifierEvents seen rest
@@ -224,13 +224,21 @@ def cellHasMod (k : Nat) : Card → Bool
   | _ => false
 
 def dataModKinds (data : List Card) : List Nat :=
-  data.foldl (fun acc c => match c with | .cellMod k _ => if acc.contains k then acc else acc ++ [k] | _ => acc) []
+  data.foldl (fun acc c => match c with | .cellMod k _ _ => if acc.contains k then acc else acc ++ [k] | _ => acc) []
 
-/-- cells.py:__setup_blank_cell_modifiers → push_to_cells → cell_modifier.py:_check_redundant_definitions:
-    a kind given in the data block and in some cell -/
+/-- the number of entries of the first data-block input of kind `k` (the one `Cells.update_pointers` keeps) -/
+def modEntries (k : Nat) : List Card → Nat
+  | [] => 0
+  | .cellMod k' _ n :: rest => if k' == k then n else modEntries k rest
+  | _ :: rest => modEntries k rest
+
+/-- cells.py:__setup_blank_cell_modifiers → push_to_cells: cell_modifier.py:_check_redundant_definitions (a kind
+    given in the data block and in some cell), then volume.py / importance.py / universe_input.py /
+    lattice_input.py / fill.py:push_to_cells (more entries than there are cells) -/
 def blankModifierEvents (s : St) : List (Region × Cls) :=
   (dataModKinds s.data).filterMap (fun k =>
-    if s.cells.any (cellHasMod k) then some (Region.cellsBlankModifiers, Cls.MalformedInputError) else none)
+    if s.cells.any (cellHasMod k) || decide (modEntries k s.data > s.cells.length)
+    then some (Region.cellsBlankModifiers, Cls.MalformedInputError) else none)
 
 def optEvents (r : Region) (f : Card → Option Cls) (cs : List Card) : List (Region × Cls) :=
   cs.filterMap (fun c => (f c).map (fun e => (r, e)))
@@ -259,6 +267,43 @@ def readInput (m : Mode) (file : List Item) : Result :=
   | .next s => linkRun m s (linkEvents s)
   | .stop s => linkRun m s (linkEvents s)
   | .fail s c r => { final := .raised c r, st := s }
+
+/-! ## Pairing the flat entry list of a material -/
+
+/-- `ValueError` of the pairing step ("not enough values to unpack" / "zip() argument 2 is shorter") -/
+inductive PairErr | leftover
+  deriving DecidableEq, Repr
+
+/-- batches of two, every batch unpacked into `(nuclide, fraction)`: a leftover entry raises -/
+def pairUpStrict {α : Type} : List α → Except PairErr (List (α × α))
+  | [] => .ok []
+  | [_] => .error .leftover
+  | a :: b :: rest =>
+    match pairUpStrict rest with
+    | .ok ps => .ok ((a, b) :: ps)
+    | .error e => .error e
+
+/-- plain `zip(it, it)`: a leftover entry is dropped -/
+def pairUpTrunc {α : Type} : List α → List (α × α)
+  | a :: b :: rest => (a, b) :: pairUpTrunc rest
+  | _ => []
+
+/-- the pairing step under each idiom the translator knows (`Gen.Errors.Pairing`, from the AST); an idiom it does
+    not know pairs nothing (so that no theorem about it can be proved until the model is taught the idiom) -/
+def pairUpWith {α : Type} (p : Pairing) (xs : List α) : Except PairErr (List (α × α)) :=
+  match p with
+  | .batchedUnpack => pairUpStrict xs
+  | .zipStrict => pairUpStrict xs
+  | .zipTruncating => .ok (pairUpTrunc xs)
+  | .unknown => .error .leftover
+
+/-- material.py:Material.__init__, the `ListNode` branch (nuclides written without a library suffix), with the idiom
+    found in the source now -/
+def pairUp {α : Type} (xs : List α) : Except PairErr (List (α × α)) := pairUpWith materialPairing xs
+
+/-- the class `parse_input` makes of the pairing step's ValueError (constructor, after the guarded parse) -/
+def pairErrClass : PairErr → Cls
+  | .leftover => constructClass ⟨.ctor, .ValueError⟩
 
 /-! ## Which classes are raised deliberately where (enumerated from the code) -/
 
